@@ -194,10 +194,12 @@ def r09_4(ctx):
             n += 1
             k += 1
             ok = False
+            reloads = {nb for nb, nt in f.calls() if callee_is(nt, "new") and "StringBlock" in nt["callee"]}
             for ub, ut in hu:
                 if f.dominates(ub, b) and ub != b:
                     e = bool_switch_edges(f, ut["dest"][0])
-                    if e and b in f.reachable_from(e[1]) and b not in f.reachable_from(e[0], avoid={ub}):
+                    # "of the same block": no reload of the block between the control-byte test and the backslash test
+                    if e and (b == e[1] or b in f.reachable_from(e[1], avoid=reloads)) and b not in f.reachable_from(e[0], avoid={ub}):
                         ok = True
             ctx.ob("R09.4", f"order:{short(f.id)}#{k}", ok, f.loc(t["ln"]),
                    "the backslash test of a block is reached only through the false edge of the control-byte test of the same block" if ok else
